@@ -89,7 +89,8 @@ def probes_for(w):
             ps.append(("get", spec.root(cname), kw[spec.cls[cname].pk]))
     for cname in spec.cls:
         if spec.cls[cname].base is None:
-            ps.append(("get", cname, "zz" if isinstance(kw[spec.cls[cname].pk], str) else 99))
+            sample = [kw2[spec.cls[c2].pk] for n2, c2, kw2 in w.universe if spec.root(c2) == cname][0]
+            ps.append(("get", cname, "zz" if isinstance(sample, str) else 99))
     for l in spec.links:
         tpk = [kw[spec.cls[c].pk] for n, c, kw in w.universe if spec.isa(c, l.target)][0]
         ps.append(("where_fk", l.holder, l.fk, tpk))
